@@ -512,6 +512,31 @@ func (x *Exec) pieceMatch(ri *RegexInfo, re *syntax.Regexp, view StrVal, start, 
 		body := o.Implies(o.And(o.IdxLe(o.Idx(0), i), o.IdxLt(i, n)), x.classTerm(set, o.Select(view.Arr, o.IdxAdd(o.IdxAdd(view.Off, start), i))))
 		return o.And(o.IdxLe(o.Idx(int64(min)), n), o.Forall([]*Term{i}, body))
 	}
+	switch re.Op {
+	case syntax.OpCapture:
+		return x.pieceMatch(ri, re.Sub[0], view, start, n, tag)
+	case syntax.OpAlternate:
+		var ds []*Term
+		for k, sub := range re.Sub {
+			ds = append(ds, x.pieceMatch(ri, sub, view, start, n, fmt.Sprintf("%s.a%d", tag, k)))
+		}
+		return o.Or(ds...)
+	case syntax.OpConcat:
+		// fixed-length prefix followed by one unbounded tail
+		if len(re.Sub) >= 2 {
+			last := re.Sub[len(re.Sub)-1]
+			pre := &syntax.Regexp{Op: syntax.OpConcat, Sub: re.Sub[:len(re.Sub)-1], Flags: re.Flags}
+			if len(re.Sub) == 2 {
+				pre = re.Sub[0]
+			}
+			pmn, pmx := reLen(pre)
+			if pmx != inf && pmn == pmx {
+				k := o.Idx(int64(pmn))
+				return o.And(o.IdxLe(k, n), x.pieceMatch(ri, pre, view, start, k, tag+".h"),
+					x.pieceMatch(ri, last, view, o.IdxAdd(start, k), o.IdxSub(n, k), tag+".t"))
+			}
+		}
+	}
 	// uninterpreted sub-language
 	return o.UF("inlang."+ri.Name+"."+tag, BoolSort, view.Arr, o.IdxAdd(view.Off, start), n)
 }
@@ -629,6 +654,48 @@ func (x *Exec) regexOf(v Val) *RegexInfo {
 	return ri
 }
 
+type smEntry struct {
+	view          StrVal
+	matched       *Term
+	starts, lens  []*Term
+}
+
+// submatchOf: the decomposition of view by the regexp (memoised per view; different views of the same regexp
+// are tied together by functional-consistency axioms: equal views have equal decompositions).
+func (x *Exec) submatchOf(ri *RegexInfo, view StrVal) *smEntry {
+	o := x.o
+	if x.smMemo == nil {
+		x.smMemo = map[string][]*smEntry{}
+	}
+	for _, e := range x.smMemo[ri.Name] {
+		if e.view.Arr == view.Arr && e.view.Off == view.Off && e.view.Len == view.Len {
+			return e
+		}
+	}
+	if !ri.SkelOK {
+		x.fail("regexp %s: pattern shape has no concatenation skeleton (outside the modelled subset)", ri.Name)
+	}
+	matched := x.inLangRI(ri, view)
+	seq := x.callSeq
+	x.callSeq++
+	e := &smEntry{view: view, matched: matched}
+	x.defining(func() {
+		var facts *Term
+		facts, e.starts, e.lens = x.skeletonFacts(ri, view, fmt.Sprintf("m%d", seq))
+		x.assume(o.Implies(matched, facts))
+		for _, p := range x.smMemo[ri.Name] {
+			same := o.And(o.Eq(p.view.Arr, view.Arr), o.Eq(p.view.Off, view.Off), o.Eq(p.view.Len, view.Len))
+			var eqs []*Term
+			for k := 1; k <= ri.NumCap; k++ {
+				eqs = append(eqs, o.Eq(p.starts[k], e.starts[k]), o.Eq(p.lens[k], e.lens[k]))
+			}
+			x.assume(o.Implies(same, o.And(eqs...)))
+		}
+	})
+	x.smMemo[ri.Name] = append(x.smMemo[ri.Name], e)
+	return e
+}
+
 // (*Regexp).FindSubmatch(b): nil iff no match; otherwise NumSubexp+1 sub-slices of b obeying the skeleton.
 func schemaFindSubmatch(x *Exec, st *State, fn *ssa.Function, args []Val, c *ssa.CallCommon) Val {
 	o := x.o
@@ -638,14 +705,8 @@ func schemaFindSubmatch(x *Exec, st *State, fn *ssa.Function, args []Val, c *ssa
 		x.fail("FindSubmatch on %T", args[1])
 	}
 	view := x.seqView(st, b)
-	matched := x.inLangRI(ri, view)
-	if !ri.SkelOK {
-		x.fail("regexp %s: pattern shape has no concatenation skeleton (outside the modelled subset)", ri.Name)
-	}
-	seq := x.callSeq
-	x.callSeq++
-	facts, starts, lens := x.skeletonFacts(ri, view, fmt.Sprintf("m%d", seq))
-	x.assume(o.Implies(o.And(st.Guard, matched), facts))
+	e := x.submatchOf(ri, view)
+	matched, starts, lens := e.matched, e.starts, e.lens
 	sm := SubmatchVal{Matched: matched}
 	sm.Parts = append(sm.Parts, b)
 	for k := 1; k <= ri.NumCap; k++ {
